@@ -372,4 +372,26 @@ def sstep (img : Nat → List Nat) (s : SState) : WStep → SState
 
 def srun (img : Nat → List Nat) (s : SState) (sched : List WStep) : SState := sched.foldl (sstep img) s
 
+
+/-! ### `.BRD`: the header of a new board (ptt.addBoardRecord, ptt/admin.go)
+
+`cache.GetBid("")` finds a vacated slot (empty brdname) if there is one: the 256-byte image goes to record
+`bid-1` through `cmsys.SubstituteRecord(FN_BOARD, board, BOARD_HEADER_RAW_SZ, bid.ToBidInStore())`; otherwise it is
+appended behind the last complete record (`cmsys.AppendRecord`) and the new bid is `n+1`.  Which vacated slot
+is chosen and the content of the new header are observations (`bid`, `r`). -/
+
+def vacated (f : List Nat) (sz k : Nat) : Bool := (slot f sz k).head? == some 0
+
+def brdNew (c : Config) (before : List Nat) (bid : Nat) (r : List Nat) : Option (List Nat) := do
+  let sz ← c.const "BOARD_HEADER_RAW_SZ"
+  let t ← c.ty "BoardHeaderRaw"
+  if r.length ≠ sizeP t ∨ bid = 0 ∨ sz = 0 then none
+  else
+    let n := before.length / sz
+    if bid ≤ n then
+      if vacated before sz (bid - 1) then some (writeAt before (seekPos sz bid 0) r) else none
+    else if bid = n + 1 ∧ (List.range n).all (fun k => !vacated before sz k) then
+      some (writeAt before (n * sz) r)
+    else none
+
 end PttVerif.C01
